@@ -23,7 +23,14 @@ func flowRetryCases() []*scen.Scenario {
 					}
 					var vs []scen.Visit
 					for i := 0; i < f; i++ {
-						vs = append(vs, scen.Visit{FirstOK: nb + 1, FBErr: true, Post: "go"})
+						switch (kind + fr + depth + i) % 3 { // which phase of the worker fails for good in this flow attempt
+						case 0:
+							vs = append(vs, scen.Visit{FirstOK: nb + 1, FBErr: true, Post: "go"})
+						case 1:
+							vs = append(vs, scen.Visit{PrepErr: true, FirstOK: 1, Post: "go"})
+						default:
+							vs = append(vs, scen.Visit{FirstOK: 1, Post: "go", PostErr: true})
+						}
 					}
 					vs = append(vs, scen.Visit{FirstOK: 1, Post: "go"})
 					nodes := []scen.NodeSpec{
@@ -41,6 +48,75 @@ func flowRetryCases() []*scen.Scenario {
 						root = len(nodes) - 1
 					}
 					out = append(out, &scen.Scenario{Runs: 1, Root: root, Nodes: nodes, UseFlowRun: (kind+depth)%3 == 0})
+				}
+			}
+		}
+	}
+	return out
+}
+
+// wideRouterCases: a node with 9..12 distinct connected actions, one of which is re-connected (to another node / to
+// nil) after all of them exist: the most recent Connect of the pair decides, however many actions the node has.
+func wideRouterCases() []*scen.Scenario {
+	var out []*scen.Scenario
+	for fan := 9; fan <= 12; fan++ {
+		for j := 0; j < fan; j += 1 + fan/5 {
+			for _, toNil := range []bool{false, true} {
+				act := func(i int) string { return fmt.Sprintf("a%d", i) }
+				n0 := scen.NodeSpec{Kind: (fan + j) % scen.NumScriptedKinds, N: 1, Visits: []scen.Visit{{FirstOK: 1, Post: act(j)}}}
+				old := scen.NodeSpec{Kind: scen.KPlain, N: 1, Visits: []scen.Visit{{FirstOK: 1, Post: "old"}}}
+				nw := scen.NodeSpec{Kind: scen.KPlain, N: 1, Visits: []scen.Visit{{FirstOK: 1, Post: "new"}}}
+				fs := &scen.FlowSpec{Start: 0}
+				for i := 0; i < fan; i++ {
+					fs.Conns = append(fs.Conns, scen.Conn{From: 0, Action: act(i), To: 1})
+				}
+				to := 2
+				if toNil {
+					to = -1
+				}
+				fs.Conns = append(fs.Conns, scen.Conn{From: 0, Action: act(j), To: to})
+				sc := &scen.Scenario{Nodes: []scen.NodeSpec{n0, old, nw, {Kind: scen.KFlow, N: 1, Flow: fs}}, Root: 3, Runs: 1}
+				out = append(out, sc)
+				// the same with the re-connection made between two runs
+				sc2 := sc.Clone()
+				sc2.Runs = 2
+				sc2.Nodes[0].Visits = append(sc2.Nodes[0].Visits, scen.Visit{FirstOK: 1, Post: act(j)})
+				sc2.Nodes[1].Visits = append(sc2.Nodes[1].Visits, scen.Visit{FirstOK: 1, Post: "old"})
+				sc2.Nodes[2].Visits = append(sc2.Nodes[2].Visits, scen.Visit{FirstOK: 1, Post: "new"})
+				sc2.Nodes[3].Flow.Conns = sc2.Nodes[3].Flow.Conns[:fan]
+				sc2.Rewire = []scen.Rewire{{AfterRun: 0, Flow: 3, Conn: scen.Conn{From: 0, Action: act(j), To: to}}}
+				out = append(out, sc2)
+			}
+		}
+	}
+	return out
+}
+
+// selfLoopThenEndCases: an inner flow whose last node self-loops a few times and then ends the inner flow with another
+// action, on which the parent routes (nesting depth 1..3).
+func selfLoopThenEndCases() []*scen.Scenario {
+	var out []*scen.Scenario
+	for kind := 0; kind < scen.NumScriptedKinds; kind++ {
+		for loops := 1; loops <= 3; loops++ {
+			for depth := 1; depth <= 3; depth++ {
+				for _, nilEnd := range []bool{false, true} {
+					nodes := []scen.NodeSpec{
+						{Kind: kind, N: 1, LoopN: loops}, // returns "loop" loops times, then "exit"
+						{Kind: scen.KPlain, N: 1, Visits: []scen.Visit{{FirstOK: 1, Post: "good"}}},
+						{Kind: scen.KPlain, N: 1, Visits: []scen.Visit{{FirstOK: 1, Post: "bad"}}},
+					}
+					inner := &scen.FlowSpec{Start: 0, Conns: []scen.Conn{{From: 0, Action: "loop", To: 0}}}
+					if nilEnd {
+						inner.Conns = append(inner.Conns, scen.Conn{From: 0, Action: "exit", To: -1})
+					}
+					nodes = append(nodes, scen.NodeSpec{Kind: scen.KFlow, N: 1, Flow: inner})
+					cur := 3
+					for d := 1; d < depth; d++ { // wrappers that just pass the action up
+						nodes = append(nodes, scen.NodeSpec{Kind: scen.KFlow, N: 1, Flow: &scen.FlowSpec{Start: cur}})
+						cur = len(nodes) - 1
+					}
+					nodes = append(nodes, scen.NodeSpec{Kind: scen.KFlow, N: 1, Flow: &scen.FlowSpec{Start: cur, Conns: []scen.Conn{{From: cur, Action: "exit", To: 1}, {From: cur, Action: "loop", To: 2}, {From: cur, Action: "default", To: 2}}}})
+					out = append(out, &scen.Scenario{Nodes: nodes, Root: len(nodes) - 1, Runs: 1})
 				}
 			}
 		}
